@@ -106,6 +106,21 @@ def run(ctx):
         oks = ok_exit_blocks(b)
         rdom(ctx, P + ':builder:validate-dominates-build', b, oks, [r'call:.*SecretKeyParamsBuilder::validate$'], 'SecretKeyParamsBuilder::build succeeds only after validate() (error propagated)')
     ctx.floor(P + ':builder:floor', 'SecretKeyParamsBuilder::build', len(cands), 1)
+    for p in [p for p in ctx.f.bodies if p.endswith('SecretKeyParamsBuilder::validate')]:
+        b = ctx.body(p)
+        # the builder keeps `version: Option<KeyVersion>`; build() turns None into KeyVersion::default().  A validation rule that
+        # compares the Option with Some(V) silently skips the defaulted case (contradiction with the `match` above it, whose
+        # catch-all arm treats None like the default version).
+        raw = [i for i, t in b.calls(r'PartialEq::(eq|ne)$') if 'Option<types::packet::KeyVersion>' in (t['f'].get('selfty') or '')
+               and has_origin(b.operand_origins(t['args'][0]), r'field:SecretKeyParamsBuilder\.version$')]
+        ctx.check(P + ':builder:version-default-consistent', 'R-sib', 'validate() judges an unset key version like the default version build() will use (no `version == Some(..)` comparison that skips None)',
+                  not raw, function=p, site=site(b, raw[0]) if raw else None,
+                  missing='`self.version == Some(V)` is false for an unset version although build() will produce the default version' if raw else None)
+        errs_ = [i for i, t in b.switches() if has_origin(b.switch_origins(i), r'field:SecretKeyParamsBuilder\.primary_user_id$')]
+        oks = ok_exit_blocks(b)
+        rej = [g for g, _ in guard_switches(b, oks, [r'field:SecretKeyParamsBuilder\.primary_user_id$'])]
+        ctx.check(P + ':builder:v4-needs-primary-user-id', 'R-dom', 'validate() has a rejecting branch on primary_user_id (v4 keys need the self-certification that carries flags and preferences)',
+                  bool(rej), function=p)
     sig.s15_5_version_alignment_sign(ctx, P)
     certificate_assembly(ctx, P)
     lock_after_backsig(ctx, P, sub)
